@@ -54,7 +54,12 @@ func visibleKind(info *types.Info, call *ast.CallExpr) string {
 		if full == "syscall.Flock" {
 			return "point"
 		}
-		if strings.HasPrefix(full, "("+nokv+"/vfs.FS).") || strings.HasPrefix(full, "("+nokv+"/vfs.File).") {
+		recvIsVFS := false
+		if selc, ok := info.Selections[sel]; ok {
+			rs := types.TypeString(selc.Recv(), nil)
+			recvIsVFS = rs == nokv+"/vfs.FS" || rs == nokv+"/vfs.File"
+		}
+		if recvIsVFS || strings.HasPrefix(full, "("+nokv+"/vfs.FS).") || strings.HasPrefix(full, "("+nokv+"/vfs.File).") {
 			switch fn.Name() {
 			case "Read", "Write", "ReadAt", "WriteAt", "Name", "Seek":
 				return ""
